@@ -320,7 +320,7 @@ func (s *Sim) Send(l *Lane, src int, kind string, soon bool, nPayloads int) *Pkt
 		p.V1 = channeltypes.NewPacket(mockData(kind), seq, l.port(src), l.id(src), l.port(1-src), l.id(1-src), th, tt)
 	case !l.V2 && l.Transfer:
 		amt := int64(1 + s.R.Intn(50))
-		msg := transfertypes.NewMsgTransfer(l.port(src), l.id(src), sdk.NewCoin(sdk.DefaultBondDenom, sdkmath.NewInt(amt)),
+		msg := transfertypes.NewMsgTransfer(l.port(src), l.id(src), sdk.NewCoin(kit.Pick(s.R, []string{sdk.DefaultBondDenom, ibctesting.SecondaryDenom}), sdkmath.NewInt(amt)),
 			ch.Addr(0).String(), s.Ch[1-src].Addr(2).String(), th, tt, "")
 		o = ch.Deliver(ch.Acct(0), msg)
 		if !o.OK() {
@@ -336,7 +336,7 @@ func (s *Sim) Send(l *Lane, src int, kind string, soon bool, nPayloads int) *Pkt
 	default: // v2 client pair or alias
 		var payloads []channeltypesv2.Payload
 		if l.Transfer {
-			d := s.transferData(src, int64(1+s.R.Intn(50)), sdk.DefaultBondDenom)
+			d := s.transferData(src, int64(1+s.R.Intn(50)), kit.Pick(s.R, []string{sdk.DefaultBondDenom, ibctesting.SecondaryDenom}))
 			bz, _ := proto.Marshal(&d)
 			payloads = append(payloads, channeltypesv2.NewPayload(transfertypes.PortID, transfertypes.PortID, transfertypes.V1, transfertypes.EncodingProtobuf, bz))
 		} else {
